@@ -414,6 +414,7 @@ type randOpts struct {
 	wrongOps      bool // sprinkle out-of-turn / wrong-phase calls on the main game
 	rehydrate     int  // 1 in k steps: JSON round trip of the main game (0: never)
 	bbOnly        bool
+	passive       bool // check / call down to the river
 }
 
 var allActions = []string{"Fold", "Check", "Call", "Allin", "Pass", "Bet", "Raise"}
@@ -481,6 +482,9 @@ func playRandom(tw *traceWriter, run int, r *rand.Rand, cfg HCfg, ro randOpts) *
 	h := newHand(tw, run, cfg)
 	n := len(cfg.Bank)
 	st := styles[r.Intn(len(styles))]
+	if ro.passive {
+		st = style{0, 30, 0, 0}
+	}
 	if ro.wrongOps && r.Intn(10) == 0 {
 		// wrong-phase calls before the hand has started
 		h.do(HOp{tableOps[r.Intn(4)], -1, 0})
@@ -589,6 +593,7 @@ func cmdHoldemRandom(args []string) {
 	bbOnly := fs.Bool("bbonly", false, "only big-blind-only structures (known finding F6)")
 	runBase := fs.Int("runbase", 0, "")
 	realShuffle := fs.Bool("realshuffle", false, "keep the engine's own shuffle in every run")
+	fullDeck := fs.Bool("fulldeck", false, "configurations that consume the whole deck when played to the river")
 	fs.Parse(args)
 	tw := newTraceWriter(*out)
 	r := rand.New(rand.NewSource(*seed))
@@ -599,7 +604,33 @@ func cmdHoldemRandom(args []string) {
 		if *realShuffle {
 			cfg.Deck = nil
 		}
-		h := playRandom(tw, *runBase+i, r, cfg, randOpts{probeRefusals: *probe, forkActions: *fork, wrongOps: *wrong, rehydrate: *rehy, bbOnly: *bbOnly})
+		if *fullDeck {
+			// seats x hole cards + 3 burns + 5 board cards = the whole deck (or one card less)
+			type fd struct {
+				short    bool
+				holeN, n int
+			}
+			opts := []fd{{true, 4, 7}, {true, 2, 14}, {false, 4, 11}, {false, 2, 22}, {true, 2, 13}, {false, 4, 10}}
+			c := opts[r.Intn(len(opts))]
+			cfg.HoleN, cfg.ReqHole = c.holeN, 0
+			if c.holeN == 4 {
+				cfg.ReqHole = 2
+			}
+			cfg.DeckKind, cfg.Ranking = "std", "standard"
+			base := pf.NewStandardDeckCards()
+			if c.short {
+				cfg.DeckKind, cfg.Ranking = "short", "short"
+				base = pf.NewShortDeckCards()
+			}
+			cfg.Deck = shuffled(r, base)
+			cfg.Pos = rolePositions(c.n, r.Intn(c.n), false)
+			cfg.Bank = nil
+			for k := 0; k < c.n; k++ {
+				cfg.Bank = append(cfg.Bank, 500+r.Int63n(500))
+			}
+		}
+		ro := randOpts{probeRefusals: *probe, forkActions: *fork, wrongOps: *wrong, rehydrate: *rehy, bbOnly: *bbOnly, passive: *fullDeck}
+		h := playRandom(tw, *runBase+i, r, cfg, ro)
 		steps += h.steps
 		if !h.closed() {
 			stuck++
